@@ -8,21 +8,21 @@ from harness.props import c37
 PROP = "C38"
 LEAN_MODULES = ["LunaVerif.Props.C38"]
 DRIVER = "Driver/C37.lean"          # same model (HeaderRx.step with fix = true), same port list
-REQUIRED_THEOREMS = ["reenable_readvertises", "reset_makes_fresh", "reenable_fails"]
+REQUIRED_THEOREMS = ["reenable_readvertises", "reenable_readvertises_abort", "reset_makes_fresh", "reenable_fails",
+                     "reenable_stale_fails", "stale_completion_taken_for_lgood"]
 RULE = ("cases = the C37 closed-loop partner + a link controller that drops `enable` and/or asserts `usb_reset` "
         "(1..40 cycles, usb_reset alone / enable alone / usb_reset one cycle ahead of enable as the LTSSM does) "
         "triggered on the generator phase seen on the source (idle / SLC header word / command word) after a random "
         "up-time, so that every dispatch state (SEND_ACKS, ISSUE_CREDITS, SEND_LBAD, SEND_LRTY, SEND_KEEPALIVE, "
         "SEND_LXU, DISPATCH) and every generator phase is hit; short and long down times, stalled and granted source")
 ASSUMPTIONS = [
-    "model = the REPAIRED receiver (fix: commit in branch wt-sslink); on the unrepaired tree the check reports the defect",
+    "model = the REPAIRED receiver: F14 repairs (in /repo main) and the generator abort (fix: commit 727706c in branch "
+    "wt-prove-c37: the LinkCommandGenerator is reset by link_reset); the model follows whichever generator the gateware "
+    "under test has (functional probe -> Config.abort), the monitor states the property for both",
     "no header is being taken over in the very cycle the link goes down (raw receiver outside CHECK_PACKET/new_packet)",
     "while the link is down and until the advertisement is complete: no sink traffic is accepted, no retry request",
-    "the link command in flight at link-down has left the generator when enable rises (source.valid = 0 at that cycle)",
 ]
-PARTIAL = ("the generator has no abort input: if `enable` rises again while the command that was in flight at link-down "
-           "is still stalled in the generator, its completion is taken for the advertisement's (excluded by hypothesis "
-           "`hidle`; such epochs are skipped by the monitor and tagged epoch:generator-busy-at-enable)")
+PARTIAL = ""
 
 IN_NAMES, OUT_NAMES = c37.IN_NAMES, c37.OUT_NAMES
 
@@ -156,4 +156,4 @@ def run_case(desc):
     mon = c37.Monitor()
     mon.run(irows, orows)
     tags = sorted(mon.tags | ptags | {"mode:" + desc.get("mode", "replay")})
-    return Case([1, 0], irows, [list(r) for r in orows], mon.fails, tags, desc, IN_NAMES, OUT_NAMES)
+    return Case([1, 0, c37.generator_abort()], irows, [list(r) for r in orows], mon.fails, tags, desc, IN_NAMES, OUT_NAMES)
